@@ -183,11 +183,14 @@ def record_one(inst):
     if ret and ret[-1]["ev"] == "Return":
         r = ret[-1]
         summ.update(flag=r["flag"], msgc=r["msgc"], nf=r["nf"], nruns=r["nruns"], jacok=r.get("jacok"), jacerr=r.get("jacerr"))
-    return dict(id=int(inst["id"]), cfg=enc["cfg"], ev=enc["ev"], summary=summ, refid=inst.get("refid"))
+    return dict(id=int(inst["id"]), cfg=enc["cfg"], ev=enc["ev"], summary=summ, refid=inst.get("refid"), top=enc.get("top"))
 
 
 def record_many(insts, nproc=None):
     nproc = nproc or min(vlib.NCPU, 16)
+    ids = [i["id"] for i in insts]
+    if len(set(ids)) != len(ids):
+        raise vlib.MachineryError("corpus has duplicate instance ids: %s" % sorted(set(k for k in ids if ids.count(k) > 1))[:5])
     if len(insts) <= 2 or nproc == 1:
         res = [record_one(i) for i in insts]
     else:
